@@ -80,6 +80,8 @@ func httpSchema(ptr bool, optional ...bool) *eng.Node {
 			{Key: "n", GoName: "N", Tags: [][2]string{{"zog", "num"}}, S: &eng.Node{Kind: "prim", PK: "int"}},
 			{Key: "tags", GoName: "Tags", Tags: [][2]string{{"json", "tags"}, {"form", "tags[]"}, {"query", "tags[]"}}, S: &eng.Node{Kind: "slice", Elem: &eng.Node{Kind: "prim", PK: "str"}}},
 			{Key: "one", GoName: "One", S: &eng.Node{Kind: "slice", Elem: &eng.Node{Kind: "prim", PK: "str"}}},
+			// the shortest possible list parameter name: one byte before the [] suffix
+			{Key: "two", GoName: "Two", Tags: [][2]string{{"form", "w[]"}, {"query", "w[]"}}, S: &eng.Node{Kind: "slice", Elem: &eng.Node{Kind: "prim", PK: "str"}}},
 		}, Extra: []string{"Zextra"},
 			Tests: []eng.TestSpec{{ID: 9, Name: "fn", N: 2, R: 2, Opts: eng.TOpts{Code: &structRule}}}}
 		if ptr {
@@ -92,6 +94,8 @@ func httpSchema(ptr bool, optional ...bool) *eng.Node {
 		{Key: "n", GoName: "N", Tags: [][2]string{{"zog", "num"}}, S: &eng.Node{Kind: "prim", PK: "int"}},
 		{Key: "tags", GoName: "Tags", Tags: [][2]string{{"json", "tags"}, {"form", "tags[]"}, {"query", "tags[]"}}, S: &eng.Node{Kind: "slice", Elem: &eng.Node{Kind: "prim", PK: "str"}, Req: &req, ReqID: 2}},
 		{Key: "one", GoName: "One", S: &eng.Node{Kind: "slice", Elem: &eng.Node{Kind: "prim", PK: "str"}}},
+		// the shortest possible list parameter name: one byte before the [] suffix
+		{Key: "two", GoName: "Two", Tags: [][2]string{{"form", "w[]"}, {"query", "w[]"}}, S: &eng.Node{Kind: "slice", Elem: &eng.Node{Kind: "prim", PK: "str"}}},
 	}, Extra: []string{"Zextra"},
 		// a struct-level rule that never holds: its issue must be there whenever the struct node runs at all
 		Tests: []eng.TestSpec{{ID: 9, Name: "fn", N: 2, R: 2, Opts: eng.TOpts{Code: &structRule}}}}
@@ -103,14 +107,14 @@ func httpSchema(ptr bool, optional ...bool) *eng.Node {
 
 func streamHTTP(seed uint64, n int, driver string) (*Summary, error) {
 	sum := newSummary("http", seed)
-	sum.Rule = "product of 9 methods x 14 Content-Type values (bare, with parameters, with whitespace, unknown, empty) x 21 body classes (valid object, {}, truncated, array, number, null, empty, valid form, malformed form, object followed by text / a bracket / a second object, object followed by white space, forms with a single blank k[] value, objects surrounded by every kind of JSON white space incl. CR, and by bytes that are not JSON white space: BOM, VT, NBSP) x 8 query shapes (none, single, repeated, k[] list, other keys, a single blank / white-space k[] value, blank values) x {Struct, Ptr(Struct)} x {required fields, no required field} with a struct-level rule that never holds and a distinct sentinel per source, under a rotating formatter level (default, execution es/en, i18n es, i18n after a history of installations); exhaustive over the product when n is large, sampled otherwise; non-trivial = every case (each fixes one source choice); distinct = distinct case line"
+	sum.Rule = "product of 9 methods x 14 Content-Type values (bare, with parameters, with whitespace, unknown, empty) x 21 body classes (valid object, {}, truncated, array, number, null, empty, valid form, malformed form, object followed by text / a bracket / a second object, object followed by white space, forms with a single blank k[] value, objects surrounded by every kind of JSON white space incl. CR, and by bytes that are not JSON white space: BOM, VT, NBSP) x 11 query shapes (incl. the three-byte list parameter name w[]) (none, single, repeated, k[] list, other keys, a single blank / white-space k[] value, blank values) x {Struct, Ptr(Struct)} x {required fields, no required field} with a struct-level rule that never holds and a distinct sentinel per source, under a rotating formatter level (default, execution es/en, i18n es, i18n after a history of installations); exhaustive over the product when n is large, sampled otherwise; non-trivial = every case (each fixes one source choice); distinct = distinct case line"
 	methods := []string{"GET", "HEAD", "POST", "PUT", "PATCH", "DELETE", "OPTIONS", "get", "CUSTOM"}
 	ctypes := []string{"application/json", "application/json; charset=utf-8", "application/json;charset=utf-8", "application/json ;x=1", "application/x-www-form-urlencoded",
 		"application/x-www-form-urlencoded; charset=UTF-8", "multipart/form-data; boundary=x", "text/plain", "", ";application/json", "Application/JSON", "application/jsonx", "application/json;", "text/plain; a=application/json"}
 	bodies := []string{`{"j_name":"J","num":3,"tags":["tj1","tj2"],"one":"oj"}`, `{}`, `{"j_name":"J"`, `["j_name"]`, `17`, `null`, ``, `f_name=F&num=4&tags%5B%5D=tf1&tags%5B%5D=tf2&one=of`, `f_name=%zz&num=4`,
-		`{"j_name":"J"} trailing`, `{"j_name":"J"}]`, `{"j_name":"J"}{"j_name":"K"}`, "{\"j_name\":\"J\",\"num\":7} \n\t ", `f_name=F&tags%5B%5D=`, `f_name=F&tags%5B%5D=++&one=`,
+		`{"j_name":"J"} trailing`, `{"j_name":"J"}]`, `{"j_name":"J"}{"j_name":"K"}`, "{\"j_name\":\"J\",\"num\":7} \n\t ", `f_name=F&tags%5B%5D=`, `f_name=F&tags%5B%5D=++&one=`, `f_name=F&w%5B%5D=`, `f_name=F&w%5B%5D=v`,
 		"\r\n{\"j_name\":\"J\",\"num\":8}\r\n", " \t\r\n {}", "\ufeff{\"j_name\":\"J\"}", "{\"j_name\":\"J\",\r\n\"num\":9}", "\x0b{}", "\u00a0{}"}
-	queries := []string{"", "q_name=Q&num=5", "q_name=Q&q_name=Q2&one=a&one=b", "q_name=Q&tags%5B%5D=tq1", "zzz=1&f_name=QF&j_name=QJ", "q_name=Q&tags%5B%5D=", "q_name=Q&tags%5B%5D=%20&num=", "q_name=&tags%5B%5D=a&tags%5B%5D="}
+	queries := []string{"", "q_name=Q&num=5", "q_name=Q&q_name=Q2&one=a&one=b", "q_name=Q&tags%5B%5D=tq1", "zzz=1&f_name=QF&j_name=QJ", "q_name=Q&tags%5B%5D=", "q_name=Q&tags%5B%5D=%20&num=", "q_name=&tags%5B%5D=a&tags%5B%5D=", "q_name=Q&w%5B%5D=", "w%5B%5D=x&%5B%5D=y", "q_name=Q&w%5B%5D=a&w%5B%5D="}
 	type combo struct {
 		m, ct, body, q string
 		ptr            bool
@@ -249,6 +253,10 @@ func streamHTTP(seed uint64, n int, driver string) (*Summary, error) {
 		mp := mv.issueKeys(true, "code,path,dtype,msg", nil) + " " + mv.dest.String()
 		if ip != mp {
 			sum.addMismatch("C15", Mismatch{Case: lines[i], Impl: impls[i], Model: modelLine, What: fmt.Sprintf("model reads source %s; projection impl=%s model=%s", src, ip, mp)})
+			if src == "json" || src == "form" {
+				// the record in the body, decoded by the front end the model (and the documentation) selects, gives another result (C14)
+				sum.addMismatch("C14", Mismatch{Case: lines[i], Impl: impls[i], Model: modelLine, What: fmt.Sprintf("the %s body through zhttp does not give what the same record gives; projection impl=%s model=%s", src, ip, mp)})
+			}
 			if iv.noIssues() && !mv.noIssues() {
 				// the implementation reports success where the reference semantics finds a violated test (C01, C02)
 				sum.addMismatch("C01", Mismatch{Case: lines[i], Impl: impls[i], Model: modelLine, What: fmt.Sprintf("Parse reported no issue, the reference semantics does; projection impl=%s model=%s", ip, mp)})
